@@ -76,11 +76,11 @@ theorem conform_idempotent_joinfree (σ : Leaves) (st : Store) (fuel fuel' : Nat
 
 /-- **`_append_unary_to_select` is sound**, case by case (see `Lemmas/SelectSound.lean`). -/
 theorem append_unary_to_select_sound (σ : Leaves) (st : Store) (fuel : Nat) (op : UOp) (S : Rel) (res : Res)
-    (hS : SelOK σ S) (hop : op.wfOn S.columns = true) (hsel : S.skipTo.NoTrivSel)
+    (hS : SelOK σ S) (hop : op.wfOn S.columns = true)
     (hpush : ∀ c, op = .proj c → ∀ l r cc, S.skipTo = .binary .chain l r cc → ∀ x res', (x = l ∨ x = r) →
       applyOp st fuel (.u (.proj c)) x {} = .ok res' → FinishOK σ (.proj c) x (res'.get x))
     (h : appendUnarySel st (fuel+1) (.u op) S = .ok res) : AppendOK σ op S (res.get S) :=
-  (appendUnarySel_sound σ st fuel op S res hS hop hsel hpush h).1
+  (appendUnarySel_sound σ st fuel op S res hS hop hpush h).1
 
 /-- **`operation.apply(target)` inside the SQL engine** (default options) on a raw join-free tree:
 the result is well-formed and has exactly the rows and columns of the operation applied to the target. -/
